@@ -843,6 +843,7 @@ int main(int argc, char **argv) {
 
 	size_t done = 0, failed = 0;
 	for (auto &job : jobs) {
+		std::cerr << "BEGIN " << job.id << std::endl;     // lets the caller name the design if the library crashes the process
 		for (size_t b = 0; b < nbuilds; b++) {
 			std::string err;
 			if (b > 0) perturb::scramble(pseed * 131 + b, 256 + 64 * b);
